@@ -172,6 +172,96 @@ func runC18(c *Ctx) {
 		}
 	}
 
+	// R18.3b: when the entity is found loaded, that very instance is handed out
+	if fn := w.Method("cache", "SubCache", "Resolve"); fn != nil {
+		for _, r := range Returns(fn) {
+			if returnKind(r) == RetError {
+				continue
+			}
+			for _, cc := range controlConds(r.Block(), nil) {
+				ex, isEx := cc.If.Cond.(*ssa.Extract)
+				if !isEx || ex.Index != 1 || cc.Edge != 0 {
+					continue
+				}
+				lk, isLk := ex.Tuple.(*ssa.Lookup)
+				if !isLk {
+					continue
+				}
+				if _, fld, isF := loadOfField(lk.X); !isF || fld != "cached" {
+					continue
+				}
+				c.Sites++
+				ok := false
+				if e0, isE := stripConv(r.Results[0]).(*ssa.Extract); isE && e0.Tuple == ssa.Value(lk) && e0.Index == 0 {
+					ok = true
+				}
+				c.Check(ok, "R18.3", "cache.SubCache.Resolve:loaded-instance-returned", w.InstrPos(r), "the instance found in the loaded set is the one returned", "the entity is found loaded but a different instance is returned: two live instances of one entity, whose commits overwrite each other")
+			}
+		}
+	}
+	// R18.6: an excerpt is computed and stored within one write-locked region
+	c.Doc("R18.6", "the value stored into SubCache.excerpts is computed (makeExcerpt) while the write lock that protects the store is already held, without release in between")
+	for _, fn := range fns {
+		if fnPkgPath(fn) != modPath+"/cache" {
+			continue
+		}
+		root := fn
+		for root.Parent() != nil {
+			root = root.Parent()
+		}
+		if funcName(root) == "cache.SubCache.Build" {
+			continue
+		}
+		li := lw.info(fn)
+		for _, b := range fn.Blocks {
+			for _, ins := range b.Instrs {
+				mu, isMU := ins.(*ssa.MapUpdate)
+				if !isMU {
+					continue
+				}
+				base, fld, isF := loadOfField(mu.Map)
+				if !isF || fld != "excerpts" {
+					continue
+				}
+				mkey := valueKey(base) + ".mu"
+				var mk *ssa.Call
+				for _, o := range origins(mu.Value) {
+					if cv, isC := o.Val.(*ssa.Call); isC && o.Kind == "call" && hasField(cv.Common().Value, "makeExcerpt") {
+						mk = cv
+					}
+				}
+				if mk == nil {
+					if cv, isC := mu.Value.(*ssa.Call); isC && hasField(cv.Common().Value, "makeExcerpt") {
+						mk = cv
+					}
+				}
+				c.Sites++
+				key := funcName(fn) + ":excerpt-computed-under-lock"
+				if mk == nil {
+					c.Undecided("R18.6", key, w.InstrPos(mu), "the stored excerpt is not the direct result of makeExcerpt")
+					continue
+				}
+				ok := li.holds(mk, mkey, true) && li.holds(mu, mkey, true)
+				if ok {
+					// no unlock between
+					for _, cl := range Calls(fn) {
+						if op, isOp := asLockOp(cl.Instr.Common()); isOp && op.Delta < 0 && op.Key == mkey {
+							if _, isDefer := cl.Instr.(*ssa.Defer); isDefer {
+								continue
+							}
+							a, _, _ := pathSearch(fn, mk, nil, func(i ssa.Instruction) bool { return i == cl.Instr }, func(i ssa.Instruction) bool { return i == ssa.Instruction(mu) }, false)
+							b2, _, _ := pathSearch(fn, cl.Instr, nil, func(i ssa.Instruction) bool { return i == ssa.Instruction(mu) }, nil, false)
+							if a && b2 {
+								ok = false
+							}
+						}
+					}
+				}
+				c.Check(ok, "R18.6", key, w.InstrPos(mu), "computed and stored under one hold of "+mkey, "the excerpt is computed outside the write-locked region that stores it: a concurrent update can finish in between and its newer excerpt is overwritten by the stale one (cache disagrees with a rebuild)")
+			}
+		}
+	}
+
 	// R18.4
 	for _, g := range guardedByTable() {
 		n := 0
